@@ -131,20 +131,33 @@ func simPrintCallers() {
 func simUserRand() uint64 {
 	if simsched.on {
 		if gp := getg(); gp.bubble != nil && gp == gp.m.curg {
+			if simsched.trace {
+				print("URND goid=", gp.goid, "\n")
+			}
 			return simrand()
 		}
 	}
 	return rand()
 }
 
-func simTimerRand() uint32 {
+// simTimerRand gives a fake timer its tie-break value for timers due at the same instant.  The
+// runtime re-draws it every time the timer is put on the heap, and a channel timer (Ticker, Timer)
+// is put there whenever a goroutine blocks on its channel - for a select in the order of the
+// channels' ADDRESSES (lock order).  Two tickers watched by one select would get their values in
+// an order that depends on the heap layout, which is not reproducible from process to process
+// (seen as 3 % diverging runs of the timer-heavy bfd family).  The value is therefore drawn once
+// per timer, at its first use, in program order.
+func simTimerRand(old uint32) uint32 {
 	if !simsched.on {
 		return cheaprand()
+	}
+	if old != 0 {
+		return old
 	}
 	if simsched.trace {
 		print("TRND goid=", getg().goid, "\n")
 	}
-	return uint32(simrand() >> 32)
+	return uint32(simrand()>>32) | 1
 }
 
 func simSelectJ(n uint32) uint32 {
